@@ -431,6 +431,8 @@ def run_poison(sc):
             n1 = len(eng.state_engine.execution_history.get(poison_arn, [])) if poison_arn else 0
             if poison_arn and n1 > n0:
                 return "loop"
+            if poison_arn and sc.get("type") == "EXPRESS":
+                return "loop"       # an EXPRESS execution keeps no history: a loop (legal, and bounded only by its time-out) cannot be told from the history here either
             return [("poison-execution-runs-away", "still producing events after %d steps without its history growing (%d -> %d events)" % (w.steps, n0, n1))]
         # a later execution still completes
         st, r = w.start_execution(W.sm_arn("healthy"), {"n": 2}, name="h2")
